@@ -82,6 +82,7 @@ func (vc *vectorIndexCache) loadFromCache(fieldID uint16, loadDocVecIDMap bool,
 		}
 
 		vc.m.RUnlock()
+		verifYield("veccache.window.docvec")
 		vc.m.Lock()
 		// in cases where only the docVecID isn't part of the cache, build it and
 		// add it to the cache, while holding a lock to avoid concurrent modifications.
@@ -92,6 +93,7 @@ func (vc *vectorIndexCache) loadFromCache(fieldID uint16, loadDocVecIDMap bool,
 	}
 
 	vc.m.RUnlock()
+	verifYield("veccache.window.create")
 	// acquiring a lock since this is modifying the cache.
 	vc.m.Lock()
 	defer vc.m.Unlock()
